@@ -243,6 +243,58 @@ def has_quantifier(t):
     return False
 
 
+def seq_terms(exprs):
+    """ground sub-terms of sequence sort (for the small-scope restriction)"""
+    out, seen = {}, set()
+    stack = list(exprs)
+    while stack:
+        x = stack.pop()
+        if x.get_id() in seen:
+            continue
+        seen.add(x.get_id())
+        if z3.is_quantifier(x):
+            stack.append(x.body())
+            continue
+        if z3.is_app(x):
+            stack.extend(x.children())
+            if x.sort().name().startswith("Seq<") and x.decl().kind() != z3.Z3_OP_ITE:
+                has_var = False
+                st2 = [x]
+                seen2 = set()
+                while st2:
+                    y = st2.pop()
+                    if y.get_id() in seen2:
+                        continue
+                    seen2.add(y.get_id())
+                    if z3.is_var(y):
+                        has_var = True
+                        break
+                    if z3.is_app(y):
+                        st2.extend(y.children())
+                if not has_var:
+                    out[x.get_id()] = x
+    return list(out.values())
+
+
+def small_scope_model(world, ob, timeout_ms):
+    """the full query plus `every sequence that is mentioned has length <= 2`: a model of the restricted query is a model of the
+    full query, so `sat` here is a genuine refutation (small-scope search); `unsat`/`unknown` here decide nothing"""
+    from .world import SLen
+    for bound in (2, 3):
+        s = z3.Solver()
+        s.set("timeout", min(timeout_ms, 8000))
+        for a in world.global_axioms():
+            s.add(a)
+        for p in ob.pc:
+            s.add(p)
+        s.add(z3.Not(ob.goal))
+        for t in seq_terms(list(ob.pc) + [ob.goal]):
+            s.add(z3.And(SLen(t) >= 0, SLen(t) <= bound))
+        if s.check() == z3.sat:
+            return s.model()
+    return None
+
+
 def candidate_models(world, ob, timeout_ms, prober, limit=24):
     """several diverse candidate inputs on the path of the obligation (quantified hypotheses dropped)"""
     out = []
@@ -409,6 +461,16 @@ def solve_one(world, ob, timeout_ms, prober=None):
                     break
         except Exception:
             pass
+        if rec["verdict"] == "unknown":
+            try:
+                m = small_scope_model(world, ob, timeout_ms)
+                if m is not None:
+                    rec["verdict"], rec["backend"] = "refuted", "z3-5.1(api, small-scope restriction)"
+                    rec["model"] = model_to_dict(m)
+                    if prober is not None:
+                        rec["witness"] = prober.witness(m)
+            except Exception as e:
+                rec["small_scope_error"] = str(e)[:200]
         if rec["verdict"] == "unknown" and prober is not None:
             try:
                 m = candidate_model(world, ob, timeout_ms, prober)
